@@ -29,6 +29,7 @@ SNAP = pathlib.Path("/tmp/mut_snapshot")  # the committed sources of /repo (HEAD
 FILES = ["xgcm/axis.py", "xgcm/comodo.py", "xgcm/grid.py", "xgcm/grid_ufunc.py", "xgcm/gridops.py", "xgcm/metadata_parsers.py",
          "xgcm/metrics.py", "xgcm/padding.py", "xgcm/sgrid.py", "xgcm/transform.py"]
 PROPS = [f"C{i:02d}" for i in range(1, 21)]
+SET = os.environ.get("MUT_SET", "")  # "" = first operator set; "2" = second set (wrong variable, break/continue, None test vs truthiness, pair swap, comparison direction)
 
 CMP = {ast.Eq: "!=", ast.NotEq: "==", ast.Lt: "<=", ast.LtE: "<", ast.Gt: ">=", ast.GtE: ">", ast.In: "not in", ast.NotIn: "in", ast.Is: "is not", ast.IsNot: "is"}
 BIN = {ast.Add: "-", ast.Sub: "+", ast.Mult: "/", ast.Div: "*", ast.FloorDiv: "*"}
@@ -244,6 +245,129 @@ def enumerate_mutants(relpath):
     return res
 
 
+CMP2 = {ast.Lt: ">", ast.Gt: "<", ast.LtE: ">=", ast.GtE: "<="}
+
+
+def enumerate_mutants2(relpath):
+    """Second operator set: the slips a one-token operator mutation does not produce.
+    wrongvar   a plain name handed to a call (positional or keyword) replaced by another parameter / local of the same function
+               that is also handed to some call there (at most three candidates per site, nearest first)
+    brkcont    break <-> continue
+    nonetest   `x is None` -> `not x`, `x is not None` -> `x` (truthiness instead of identity)
+    pairswap   the two elements of a two-element tuple / list display swapped
+    cmpdir     < <-> >, <= <-> >=
+    keyswap    the index of a subscript that is a plain name replaced by another name used as an index in the function
+    """
+    text = (SNAP / relpath).read_text()
+    S = Src(text)
+    tree = ast.parse(text)
+    out = []
+
+    def add(op, a, b, new, node, fn):
+        old = S.seg(a, b)
+        if old != new:
+            out.append({"file": relpath, "op": op, "a": a, "b": b, "old": old, "new": new, "line": node.lineno, "function": fn})
+
+    def funcs(node, name):
+        for ch in ast.iter_child_nodes(node):
+            if isinstance(ch, (ast.FunctionDef, ast.AsyncFunctionDef)):
+                yield ch, (name + "." if name else "") + ch.name
+                yield from funcs(ch, (name + "." if name else "") + ch.name)
+            elif isinstance(ch, ast.ClassDef):
+                yield from funcs(ch, (name + "." if name else "") + ch.name)
+            else:
+                yield from funcs(ch, name)
+
+    def own_nodes(fn):
+        """Nodes of fn's body that are not inside a nested def / class."""
+        stack = list(fn.body)
+        while stack:
+            n = stack.pop()
+            yield n
+            for ch in ast.iter_child_nodes(n):
+                if not isinstance(ch, (ast.FunctionDef, ast.AsyncFunctionDef, ast.ClassDef, ast.Lambda)):
+                    stack.append(ch)
+
+    for fn, qual in funcs(tree, ""):
+        if qual.endswith("__repr__") or qual.startswith("raw_"):
+            continue
+        body = list(own_nodes(fn))
+        msg = set()
+        for n in body:
+            if isinstance(n, ast.Raise) and n.exc is not None:
+                msg.update(id(m) for m in ast.walk(n.exc))
+            if isinstance(n, ast.Call) and isinstance(n.func, ast.Attribute) and n.func.attr == "warn":
+                msg.update(id(m) for m in ast.walk(n))
+        params = [a.arg for a in fn.args.posonlyargs + fn.args.args + fn.args.kwonlyargs if a.arg not in ("self", "cls")]
+        bound = set(params)
+        for n in body:
+            if isinstance(n, ast.Name) and isinstance(n.ctx, ast.Store):
+                bound.add(n.id)
+        argsites = []  # (Name node) handed to a call
+        for n in body:
+            if isinstance(n, ast.Call) and id(n) not in msg:
+                for x in list(n.args) + [k.value for k in n.keywords if k.arg is not None]:
+                    if isinstance(x, ast.Name) and x.id in bound:
+                        argsites.append(x)
+        pool = []
+        for x in sorted(argsites, key=lambda x: (x.lineno, x.col_offset)):
+            if x.id not in pool:
+                pool.append(x.id)
+        for x in argsites:
+            i = pool.index(x.id)
+            cands = [pool[j] for d in (1, -1, 2, -2) for j in [i + d] if 0 <= j < len(pool)][:2]
+            a, b = S.span(x)
+            for c in cands:
+                add("wrongvar", a, b, c, x, qual)
+        idxsites = [n.slice for n in body if isinstance(n, ast.Subscript) and isinstance(n.slice, ast.Name) and n.slice.id in bound and id(n) not in msg]
+        ipool = []
+        for x in sorted(idxsites, key=lambda x: (x.lineno, x.col_offset)):
+            if x.id not in ipool:
+                ipool.append(x.id)
+        for x in idxsites:
+            i = ipool.index(x.id)
+            a, b = S.span(x)
+            for c in [ipool[j] for d in (1, -1) for j in [i + d] if 0 <= j < len(ipool)]:
+                add("keyswap", a, b, c, x, qual)
+        for n in body:
+            if id(n) in msg:
+                continue
+            if isinstance(n, ast.Break):
+                add("brkcont", *S.span(n), "continue", n, qual)
+            elif isinstance(n, ast.Continue):
+                add("brkcont", *S.span(n), "break", n, qual)
+            elif isinstance(n, ast.Compare) and len(n.ops) == 1 and isinstance(n.comparators[0], ast.Constant) and n.comparators[0].value is None:
+                a, b = S.span(n)
+                l = S.seg(*S.span(n.left))
+                if isinstance(n.ops[0], ast.Is):
+                    add("nonetest", a, b, "(not " + l + ")", n, qual)
+                elif isinstance(n.ops[0], ast.IsNot):
+                    add("nonetest", a, b, "bool(" + l + ")", n, qual)
+            elif isinstance(n, ast.Compare) and len(n.ops) == 1 and type(n.ops[0]) in CMP2:
+                a = S.span(n.left)[1]
+                b = S.span(n.comparators[0])[0]
+                add("cmpdir", a, b, " " + CMP2[type(n.ops[0])] + " ", n, qual)
+            elif isinstance(n, (ast.Tuple, ast.List)) and isinstance(n.ctx, ast.Load) and len(n.elts) == 2 and not any(isinstance(e, ast.Starred) for e in n.elts):
+                a0, b0 = S.span(n.elts[0])
+                a1, b1 = S.span(n.elts[1])
+                if S.seg(a0, b0) != S.seg(a1, b1):
+                    add("pairswap", a0, b1, S.seg(a1, b1) + S.seg(b0, a1) + S.seg(a0, b0), n, qual)
+    res, seen = [], set()
+    for m in out:
+        nb = S.bytes[:m["a"]] + m["new"].encode() + S.bytes[m["b"]:]
+        try:
+            ast.parse(nb.decode())
+        except (SyntaxError, UnicodeDecodeError):
+            continue
+        key = (m["a"], m["b"], m["new"])
+        if key in seen:
+            continue
+        seen.add(key)
+        m["id"] = hashlib.sha1(f"{relpath}|{m['a']}|{m['b']}|{m['new']}".encode()).hexdigest()[:10]
+        res.append(m)
+    return res
+
+
 def mutant_source(m):
     b = (SNAP / m["file"]).read_bytes()
     assert b[m["a"]:m["b"]].decode() == m["old"], "tree changed since `gen`"
@@ -303,19 +427,23 @@ def cmd_gen():
     snapshot()
     allm = []
     for f in FILES:
-        ms = enumerate_mutants(f)
+        ms = enumerate_mutants2(f) if SET == "2" else enumerate_mutants(f)
         allm.extend(ms)
         print(f, len(ms))
     head = subprocess.run(["git", "-C", str(REPO), "rev-parse", "HEAD"], capture_output=True, text=True).stdout.strip()
-    with open(OUT / "mutants.jsonl", "w") as fh:
+    with open(OUT / _fn("mutants.jsonl"), "w") as fh:
         for m in allm:
             m["repo_head"] = head
             fh.write(json.dumps(m) + "\n")
     print("total", len(allm))
 
 
+def _fn(name):
+    return name.replace(".jsonl", SET + ".jsonl").replace("RESULTS.md", f"RESULTS{SET}.md").replace("triage.json", f"triage{SET}.json")
+
+
 def load(name):
-    p = OUT / name
+    p = OUT / _fn(name)
     return [json.loads(l) for l in p.read_text().splitlines()] if p.exists() else []
 
 
@@ -327,7 +455,7 @@ def cmd_check():
     todo = [m for m in ms if m["id"] not in done]
     print("to check:", len(todo))
     jobs = int(os.environ.get("SA_JOBS", "12"))
-    with ProcessPoolExecutor(max_workers=jobs) as ex, open(OUT / "checked.jsonl", "a") as fh:
+    with ProcessPoolExecutor(max_workers=jobs) as ex, open(OUT / _fn("checked.jsonl"), "a") as fh:
         for i, r in enumerate(ex.map(_check_one, todo, chunksize=4)):
             fh.write(json.dumps(r) + "\n")
             fh.flush()
@@ -354,7 +482,7 @@ def cmd_tests(n):
     subprocess.run(["git", "-C", str(REPO), "worktree", "remove", "--force", wt], capture_output=True)
     subprocess.run(["git", "-C", str(REPO), "worktree", "add", "--detach", wt, "HEAD"], check=True, capture_output=True)
     try:
-        with open(OUT / "tested.jsonl", "a") as fh:
+        with open(OUT / _fn("tested.jsonl"), "a") as fh:
             for i in todo:
                 m = ms[i]
                 (pathlib.Path(wt) / m["file"]).write_text(mutant_source(m))
@@ -372,7 +500,7 @@ def cmd_report():
     ms = load("mutants.jsonl")
     ck = {r["id"]: r for r in load("checked.jsonl")}
     ts = {r["id"]: r for r in load("tested.jsonl")}
-    tri = json.loads((OUT / "triage.json").read_text()) if (OUT / "triage.json").exists() else {}
+    tri = json.loads((OUT / _fn("triage.json")).read_text()) if (OUT / _fn("triage.json")).exists() else {}
     lines = ["# Mechanical mutation campaign", "", f"Mutants of `/repo` at `{ms[0]['repo_head'][:7] if ms else '?'}`: {len(ms)}; checked: {len(ck)}.", ""]
     by_file = {}
     for m in ms:
@@ -428,7 +556,7 @@ def cmd_report():
             m = mm[i]
             k = sorted(ck[i]["noverdict"].items())[0]
             lines.append(f"* {i} {m['file']}:{m['line']} `{m['function']}` {m['op']}: `{m['old'][:40].replace(chr(10), ' ')}` -> `{m['new'][:40].replace(chr(10), ' ')}` - {k[1][:140]}")
-    (OUT / "RESULTS.md").write_text("\n".join(lines) + "\n")
+    (OUT / _fn("RESULTS.md")).write_text("\n".join(lines) + "\n")
     print("\n".join(lines[:40]))
 
 
